@@ -77,6 +77,22 @@ PROPERTIES = {
         "level_note": "Assumed: what core::fmt prints for a value under given flags is the uninterpreted text function of that value type (the formatters themselves are C15's unit), getters fraction/per_sec/elapsed/eta/duration are opaque values of the state (C07/C09), std String operations (push, push_str, clear, replace, split, trim_end) as first-order helpers, the custom tracker writes only through the writer it receives. ProgressState::{eta, per_sec, duration} bodies are not part of this unit.",
         "assumptions": ["R7b write_fmt(format_args!) translation; R12 string-literal match as if-chain; R3 loops"],
     },
+    "C09": {
+        "units": ["c09_estimator"],
+        "level": "proof",
+        "explanation": "Estimator::{new, record, reset, steps_per_second}, estimator_weight, duration_to_secs and ProgressState::{eta, duration, per_sec} extracted from src/state.rs and verified over the reals (f64 as a real with a finiteness flag that only a division by zero clears): the reported rate is the documented doubly-smoothed, age-weighted, normalised average (rate_at); it is finite at every instant strictly after creation / reset, lies between zero and the largest sample rate recorded since the last reset (invariant inv(M), preserved by every accepted sample), equals r exactly after any number of samples of rate r at any cadence (invariant steady(r)), a reset or a backwards seek leaves exactly the state of a new estimator (prev_steps aside); eta is remaining/rate through the float-to-Duration conversion and zero when finished / length unknown / rate zero; duration is elapsed + eta (saturating); per_sec of a finished bar is position/elapsed. The clause 'the rate never increases while progress stalls' is a separate obligation that FAILS (known finding, witness replayed on the f64 code).",
+        "level_text": "Deductive proof (Verus, nonlinear real arithmetic) for every history of samples (inductive invariants inv / steady over record), every gap and every query instant; NOT a proof about IEEE-754: rounding, overflow to infinity and NaN are outside the model.",
+        "level_note": "Assumed: W(a) = 0.1^(a/15) satisfies W(0)=1, W(a+b)=W(a)W(b), 0<W(a)<1 for a>0 (f64::powf); machine arithmetic treated as mathematical (R6); the clock is frozen during one getter call and not earlier than any stored instant; secs_to_duration / as_secs_f64 opaque. The replay driver evaluates the same laws on the real f64 code for a grid of rates 1e-3..1e12 and gaps 1 ms..1 day as a sanity check of the real-arithmetic assumption (bounded, not counted as proof).",
+        "assumptions": ["R6: f64 as mathematical reals (no rounding / overflow / NaN)", "frozen monotone clock within one getter call"],
+    },
+    "C17": {
+        "units": ["c17_adaptors"],
+        "level": "proof",
+        "explanation": "ProgressBarIter's impls of Iterator, DoubleEndedIterator, io::Read (read, read_vectored, read_to_string, read_exact), io::BufRead (fill_buf, consume), io::Seek (seek, stream_position), io::Write (write, write_vectored, flush), tokio AsyncWrite / AsyncRead / AsyncSeek / AsyncBufRead and futures Stream extracted from src/iter.rs and verified against a model source whose every method has arbitrary behaviour and logs its arguments and result: each wrapper method performs exactly that one inner call and returns its result (and leaves the caller's buffer as the inner call left it), the bar advances by exactly the items / bytes the inner call reports (nothing on errors, on Pending, on fill_buf, flush or position queries), a seek moves the bar to the returned offset, exhaustion finishes an unfinished bar exactly once and leaves a finished one alone.",
+        "level_text": "Deductive proof (Verus) for every behaviour of the wrapped object (results are unconstrained: short reads and writes, errors, interleaved fill_buf / consume, any seek) and every bar state.",
+        "level_note": "Assumed: one model source type stands for the generic parameter (the wrappers are parametric in it), Pin::new(&mut x) on an Unpin value is the identity, ProgressBar::{inc, set_position, is_finished, finish_using_style} enter through their C07 / C04 contracts. NOT covered: the rayon producer / consumer / folder wrappers (src/rayon.rs: splitting across worker threads is a schedule-level claim and the plumbing traits are outside what the model expresses) and ProgressIterator's constructors. The tokio and futures crates are not available offline: those impls are verified at source level, and the two defects found there (repaired) were reproduced on the real code compiled against a signature-only stand-in for tokio::io (/verif/replay-async).",
+        "assumptions": ["R10 model source; R13 trait methods as inherent methods of the instantiated wrapper; R5 Result::map / Poll::map with a closure desugared to match"],
+    },
     "C10": {
         "units": ["c10_template", "format_state"],
         "level": "proof",
@@ -182,6 +198,11 @@ WITNESS = {
     "c15_formatters/HumanFloatCount::fmt": ["human_float"],
     "c15_formatters/HumanCount::fmt": ["human_count"],
     "c15_formatters/FormattedDuration::fmt": ["formatted_duration"],
+    "c17_adaptors/ProgressBarIter::poll_fill_buf": ["async_fill_buf"],
+    "c17_adaptors/ProgressBarIter::async_consume": ["async_fill_buf"],
+    "c17_adaptors/ProgressBarIter::poll_complete": ["async_seek"],
+    "c09_estimator/Estimator::steps_per_second__F_": ["est_decay"],
+    "c09_estimator/": ["est_laws"],
     "format_state/ProgressStyle::push_line": ["render_lines"],
     "format_state/WideElement::expand": ["render_wide"],
     "format_state/ProgressStyle::": ["render_keys", "render_lines", "render_wide"],
@@ -209,6 +230,7 @@ FALLBACK = {
                      ("rl_new", ["C05"], "RateLimiter::new starts with the documented capacity"),
                      ("pos_allow", ["C05"], "AtomicPosition::allow token bucket on a grid of states and times"),
                      ("rl_window", ["C05"], "window bound 20 + R*T + 1 on generated request traces")],
+    "c09_estimator": [("est_laws", ["C09"], "finite / non-negative / bounded / steady-exact / reset-forgets on the real f64 estimator: 5 rates x 6 gap patterns x 40 samples")],
     "c14_style": [("style_build", ["C14"], "builders reject or produce a renderable style (family of tick/progress strings)")],
     "c10_template": [("template_total", ["C10"], "parser totality on generated strings up to length 6 over the grammar alphabet"),
                      ("template_order", ["C10"], "literal order / one line per template line on generated templates")],
